@@ -226,6 +226,29 @@ fn main() {
         state_list.retain(|s| s.len() < 2 || s[0][1] != s[1][1]);
     }
 
+    // 1b. configuration states: every numeric server parameter (as listed by CONFIG GET *) set to 1, alone and in
+    // front of every single-step seed of key k1 - a limit read from the configuration can turn an ordinary
+    // command into a failing one
+    let config_params: Vec<String> = {
+        let mut ex = CommandExecutor::new();
+        let r = exec_argv(&mut ex, &resp::line("CONFIG GET *"));
+        let flat = dump::bulk_items(&r).unwrap_or_default();
+        flat.chunks(2)
+            .filter(|c| c.len() == 2 && String::from_utf8_lossy(&c[1]).parse::<i64>().is_ok())
+            .map(|c| String::from_utf8_lossy(&c[0]).to_string())
+            .collect()
+    };
+    let k1_seeds: Vec<Vec<Argv>> = std::iter::once(vec![]).chain(alpha.iter().filter(|a| a[1] == b"k1").map(|a| vec![a.clone()])).collect();
+    let mut config_states = 0usize;
+    for p in &config_params {
+        for tail in &k1_seeds {
+            let mut st = vec![resp::line(&format!("CONFIG SET {p} 1"))];
+            st.extend(tail.iter().cloned());
+            state_list.push(st);
+            config_states += 1;
+        }
+    }
+
     // 2. command instances
     let instances = cmdgen::all_instances(if args.tier == Tier::Thorough { Profile::Rich } else { Profile::Small });
 
@@ -276,6 +299,7 @@ fn main() {
         "distinct_nontrivial": checked,
         "rule": "every pair (keyspace state reachable in <=2 seeding ops over both keys and all five types, with/without TTL, integers at i64 limits) x (command instance from the template product over the full command set incl. stubs, two-key commands and single-call EVAL scripts); a pair is non-trivial (counted in distinct_nontrivial) when the command parsed and replied with an error or is classified is_read_only(), i.e. the oracle 'visible keyspace unchanged' was actually evaluated; all pairs are distinct by construction",
         "states": state_list.len(),
+        "states_with_a_configuration_parameter_set_to_1": config_states,
         "command_instances": instances.len(),
         "pairs": state_list.len() as u64 * instances.len() as u64,
         "pairs_rejected_by_parser": parse_err,
